@@ -264,6 +264,30 @@ pub fn run(ctx: &Ctx) -> i32 {
             check_case(ctx, st, &tcs, Settings::new(cls | MODES[2 + i % 2]));
         });
     }
+    // expressions near the size limit of the regex crate: several long runs of class atoms sharing a suffix next to
+    // short test cases that shadow one another under overlapping classes (the minimised candidate of the
+    // self-check compiles, the un-minimised one does not)
+    {
+        let n = if ctx.thorough { 96 } else { 10 };
+        let shadows: [&[&str]; 5] = [&["a", "bb", "bb1", "1-"], &["x", "xy", "xy7", "7+"], &["a", "a1", "1-", "ab1"], &["b", "bb", "bb2", "2=", "22="], &["a", "bb", "bb1"]];
+        par_for(&ctx.run, n, |i, st| {
+            let mut rng = Rng::new(seed, 0x84_0000 + i as u64);
+            let m = 60 + rng.below(90);
+            let k = (230 + m - 1) / m + rng.below(2);
+            let symbols = ["+", "=", "~", "%", "#", "@", "&"];
+            let letters: String = (0..m).map(|_| *rng.pick(&["a", "b", "c", "d", "e", "f", "g", "h", "i", "j"])).collect();
+            let mut tcs: Vec<String> = shadows[i % shadows.len()].iter().map(|x| x.to_string()).collect();
+            for sy in symbols.iter().take(k.min(symbols.len())) {
+                tcs.push(format!("{sy}{letters}"));
+                if i % 4 != 3 {
+                    tcs.push(format!("{sy}{letters}!"));
+                }
+            }
+            let cls = [DIGIT | WORD, DIGIT | WORD, WORD, DIGIT | WORD | SPACE][i % 4];
+            st.count("size_limit_shadow_cases");
+            check_case(ctx, st, &tcs, Settings::new(cls | MODES[2 + i % 2]));
+        });
+    }
     // case-insensitive search: fold-equal but not identical letters (final sigma, long s, Kelvin, micro)
     {
         let al = gen::alphabet("sigma");
